@@ -36,6 +36,10 @@ func (r *streamReader) Receive(stream DRPCRemote_ReceiveStream) error {
 		}
 
 		for _, msg := range envelope.Messages {
+			if err := validateIndices(envelope, msg); err != nil {
+				slog.Error("streamReader invalid envelope", "err", err)
+				return err
+			}
 			tname := envelope.TypeNames[msg.TypeNameIndex]
 			payload, err := r.deserializer.Deserialize(msg.Data, tname)
 
@@ -52,5 +56,23 @@ func (r *streamReader) Receive(stream DRPCRemote_ReceiveStream) error {
 		}
 	}
 
+	return nil
+}
+
+// validateIndices makes sure that the indices of the given message point into
+// the lookup tables of the envelope it arrived in.
+func validateIndices(envelope *Envelope, msg *Message) error {
+	if msg == nil {
+		return errors.New("nil message in envelope")
+	}
+	if msg.TypeNameIndex < 0 || int(msg.TypeNameIndex) >= len(envelope.TypeNames) {
+		return errors.New("type name index out of range")
+	}
+	if msg.TargetIndex < 0 || int(msg.TargetIndex) >= len(envelope.Targets) {
+		return errors.New("target index out of range")
+	}
+	if len(envelope.Senders) > 0 && (msg.SenderIndex < 0 || int(msg.SenderIndex) >= len(envelope.Senders)) {
+		return errors.New("sender index out of range")
+	}
 	return nil
 }
